@@ -65,6 +65,24 @@ def diff_scalar(rng, ty, lib, old):
 # ------------------------------------------------------------------ neutral edits (C02)
 
 
+def _inner_cfg_containers(ty, v, path):
+    """[(path, class name)]: the containers inside value `v` of type `ty` whose members are configurations; path = indices
+    (list position / dict entry position) from the value down to the container"""
+    out = []
+    if not (isinstance(ty, dict) and isinstance(v, dict)):
+        return out
+    inner = ty.get("list") if "list" in ty else ty.get("dict") if "dict" in ty else None
+    if inner is None or not ("l" in v or "d" in v):
+        return out
+    if isinstance(inner, dict) and "cfg" in inner:
+        out.append((path, inner["cfg"]))
+        return out
+    items = v["l"] if "l" in v else [kv[1] for kv in v["d"]]
+    for i, x in enumerate(items):
+        out += _inner_cfg_containers(inner, x, path + (i,))
+    return out
+
+
 def neutral_edit(rng, lib, g):
     g = copy.deepcopy(g)
     n = rng.randrange(len(g["nodes"]))
@@ -76,6 +94,10 @@ def neutral_edit(rng, lib, g):
     tail = ["tag", "dependency"]
     rng.shuffle(tail)
     kinds = (tail + kinds) if rng.random() < 0.15 else (kinds + tail)
+    if cfggen.NESTED_DEFAULTS and rng.random() < 0.5 and any(
+            len(pth) > 0 for a in args if a["decl"] == "param" and vals.get(a["name"]) is not None
+            for pth, _ in _inner_cfg_containers(a["ty"], vals[a["name"]], ())):
+        kinds = ["meta_member"] + [k for k in kinds if k != "meta_member"]      # an inner container is there: prefer the deep edit
     for kind in kinds:
         if kind == "explicit_default":
             c = [a for a in args if "default" in a and a["decl"] in ("param",)]
@@ -117,6 +139,27 @@ def neutral_edit(rng, lib, g):
                  and (("list" in a["ty"] and isinstance(a["ty"]["list"], dict) and "cfg" in a["ty"]["list"])
                       or ("dict" in a["ty"] and isinstance(a["ty"]["dict"], dict) and "cfg" in a["ty"]["dict"]))
                  and a["name"] in vals and vals[a["name"]] is not None]
+            # … at any depth: an inner container (list in a list, list in a dict, …) whose members are configurations
+            deep = [(a, sites) for a in args if a["decl"] == "param" and a["name"] in vals and vals[a["name"]] is not None
+                    for sites in [_inner_cfg_containers(a["ty"], vals[a["name"]], ())] if any(len(pth) > 0 for pth, _ in sites)] \
+                if cfggen.NESTED_DEFAULTS else []
+            if deep and (not c or rng.random() < 0.6):
+                a, sites = rng.choice(deep)
+                pth, cname = rng.choice([s for s in sites if len(s[0]) > 0])
+                m = new_node_of(rng, lib, g, rng.choice(cfggen.subclasses(lib, cname)), meta=True)
+                v = copy.deepcopy(vals[a["name"]])
+                tgt = v
+                for step in pth:
+                    tgt = tgt["l"][step] if "l" in tgt else tgt["d"][step][1]
+                if "l" in tgt:
+                    tgt["l"].insert(rng.randrange(len(tgt["l"]) + 1), {"r": m})
+                else:
+                    free = [k for k in cfggen.KEYS if k not in [kk for kk, _ in tgt["d"]]]
+                    if not free:
+                        continue
+                    tgt["d"].insert(rng.randrange(len(tgt["d"]) + 1), [rng.choice(free), {"r": m}])
+                set_value(g["nodes"][n], a["name"], v)
+                return g, {"kind": kind, "node": n, "arg": a["name"], "how": "added meta=True member at depth %d" % (len(pth) + 1)}
             if c:
                 a = rng.choice(c)
                 inner = a["ty"].get("list") or a["ty"].get("dict")
